@@ -681,4 +681,245 @@ theorem outputs_sparse (c : Chan) (h : c.gen = some 12) (n : Nat) :
     simp only [Function.comp]
     rw [show c.calls + 1 + j = c.calls + (j + 1) by omega]
 
+/-! ### the module-level default objects stay pristine -/
+
+/-- the module-level default channel objects (addresses `0 … nDefault - 1`) are as at import time, and no instance
+    holds one of them -/
+def Pristine (w : World) : Prop :=
+  nDefault ≤ w.heap.length ∧ w.heap.take nDefault = defaultObjs ∧
+  ∀ (k : Nat) (i : Inst), w.insts[k]? = some i → ∀ a ∈ i.addrs, nDefault ≤ a
+
+theorem Pristine_init : Pristine World.init :=
+  ⟨Nat.le_refl _, List.take_length, fun k i h => by simp [World.init] at h⟩
+
+/-- allocating fresh objects for a new instance keeps the defaults pristine -/
+theorem Pristine_alloc (w : World) (objs : List Chan) (flags rxp snum wpad : Nat) (h : Pristine w) :
+    Pristine ⟨w.heap ++ objs, w.insts ++ [newInst (freshAddrs w.heap objs.length) flags rxp snum wpad]⟩ := by
+  obtain ⟨h1, h2, h3⟩ := h
+  refine ⟨by simp only [List.length_append]; omega, ?_, ?_⟩
+  · show (w.heap ++ objs).take nDefault = defaultObjs
+    rw [List.take_append_of_le_length h1]; exact h2
+  · intro k i hk a ha
+    rcases Nat.lt_or_ge k w.insts.length with hlt | hge
+    · rw [List.getElem?_append_left hlt] at hk
+      exact h3 k i hk a ha
+    · rw [List.getElem?_append_right hge] at hk
+      cases hkk : k - w.insts.length with
+      | zero =>
+        rw [hkk] at hk
+        simp only [List.getElem?_cons_zero, Option.some.injEq] at hk
+        subst hk
+        have := (freshAddrs_mem w.heap objs.length a).mp ha
+        omega
+      | succ m => rw [hkk] at hk; simp at hk
+
+/-- an op on an instance writes only at the instance's addresses: the defaults stay pristine -/
+theorem Pristine_step (w : World) (k : Nat) (op : Op) (h : Pristine w) : Pristine (w.step k op).1 := by
+  obtain ⟨h1, h2, h3⟩ := h
+  have hlen := (w.step_insts k op 0).2
+  refine ⟨by rw [hlen]; exact h1, ?_, ?_⟩
+  · rw [← h2]
+    unfold World.step
+    cases hk : w.insts[k]? with
+    | none => rfl
+    | some ik =>
+      simp only
+      apply List.ext_getElem?
+      intro j
+      rw [List.getElem?_take, List.getElem?_take]
+      by_cases hj : j < nDefault
+      · rw [if_pos hj, if_pos hj]
+        exact scatter_getElem_of_not_mem _ _ _ j (fun hm => by have := h3 k ik hk j hm; omega)
+      · rw [if_neg hj, if_neg hj]
+  · intro j i' hj a ha
+    have := (w.step_insts k op j).1
+    rw [hj] at this
+    cases hw : w.insts[j]? with
+    | none => rw [hw] at this; cases this
+    | some i =>
+      rw [hw] at this
+      simp only [Option.map_some, Option.some.injEq] at this
+      exact h3 j i hw a (by rw [← this]; exact ha)
+
+/-- **the default objects stay pristine**: with the per-instance copy of the default channel list, in every world that
+    can exist the module-level objects are as at import time and belong to no instance -/
+theorem Built.pristine (hc : Gen.Dummy.defaultCopied = true) {w : World} (hb : Built w) : Pristine w := by
+  induction hb with
+  | init => exact Pristine_init
+  | newDefault flags rxp snum wpad _ ih =>
+    unfold World.newDefault
+    rw [if_pos hc]
+    exact Pristine_alloc _ _ flags rxp snum wpad ih
+  | newCustom chans flags rxp snum wpad _ ih =>
+    unfold World.newCustom
+    cases chans with
+    | nil =>
+      simp only
+      unfold World.newDefault
+      rw [if_pos hc]
+      exact Pristine_alloc _ _ flags rxp snum wpad ih
+    | cons c cs => exact Pristine_alloc _ _ flags rxp snum wpad ih
+  | step k op _ ih => exact Pristine_step _ k op ih
+
+/-- reading the freshly allocated objects back -/
+theorem filterMap_getElem?_range (l : List Chan) (n : Nat) (hn : n ≤ l.length) :
+    (List.range n).filterMap (l[·]?) = l.take n := by
+  induction n with
+  | zero => rfl
+  | succ n ih =>
+    rw [List.range_succ, List.filterMap_append, ih (by omega), List.take_add_one,
+      List.getElem?_eq_getElem (by omega)]
+    simp [List.getElem?_eq_getElem (show n < l.length by omega)]
+
+theorem gather_fresh (h : Heap) (objs : List Chan) : gather (h ++ objs) (freshAddrs h objs.length) = objs := by
+  unfold gather freshAddrs
+  rw [List.filterMap_map]
+  have : ((fun x => (h ++ objs)[x]?) ∘ fun x => h.length + x) = fun j => objs[j]? := by
+    funext j
+    simp only [Function.comp]
+    rw [List.getElem?_append_right (by omega)]
+    congr 1
+    omega
+  rw [this, filterMap_getElem?_range objs objs.length (Nat.le_refl _), List.take_length]
+
+/-- what `DummyDev()` creates in a world whose defaults are pristine: a new last instance at fresh addresses whose
+    channel objects are copies of the import-time defaults -/
+theorem newDefault_pristine (hc : Gen.Dummy.defaultCopied = true) (w : World) (hp : Pristine w) (flags rxp snum wpad : Nat) :
+    w.newDefault flags rxp snum wpad =
+      ⟨w.heap ++ defaultObjs, w.insts ++ [newInst (freshAddrs w.heap nDefault) flags rxp snum wpad]⟩ := by
+  unfold World.newDefault
+  rw [if_pos hc]
+  simp only [hp.2.1]
+  rfl
+
+/-! ### an op reads the address list of its instance only through its length -/
+
+/-- the same instance holding other addresses -/
+def Inst.withAddrs (i : Inst) (a : List Nat) : Inst := { i with addrs := a }
+
+theorem callback_withAddrs (cs : List Chan) (i : Inst) (a : List Nat) (cb : Nat) (p : Bytes)
+    (h : a.length = i.addrs.length) : callback cs (i.withAddrs a) cb p = callback cs i cb p := by
+  have hc : (i.withAddrs a).chmax = i.chmax := h
+  unfold callback
+  rw [hc]
+  rfl
+
+theorem handle_withAddrs (cs : List Chan) (i : Inst) (a : List Nat) (d : Bytes) (h : a.length = i.addrs.length) :
+    handle cs (i.withAddrs a) d = ((handle cs i d).1, (handle cs i d).2.1.withAddrs a, (handle cs i d).2.2) := by
+  unfold handle
+  cases Dispatch.recvHandle d with
+  | ignored => rfl
+  | raised e => rfl
+  | fired cb p =>
+    simp only
+    rw [callback_withAddrs cs i a cb p h]
+    cases callback cs i cb p with
+    | error e => rfl
+    | ok r => obtain ⟨cs', fl, out⟩ := r; rfl
+
+theorem recvStep_withAddrs (cs : List Chan) (i : Inst) (a : List Nat) (h : a.length = i.addrs.length) :
+    recvStep cs (i.withAddrs a) = ((recvStep cs i).1, (recvStep cs i).2.1.withAddrs a, (recvStep cs i).2.2) := by
+  unfold recvStep
+  show (if i.recvThr ≠ .alive then _ else match i.qwrite with | [] => _ | d :: rest => _) = _
+  split
+  · rfl
+  · cases hq : i.qwrite with
+    | nil => rfl
+    | cons d rest => exact handle_withAddrs cs { i with qwrite := rest } a d h
+
+theorem produce_withAddrs (cs : List Chan) (i : Inst) (a : List Nat) :
+    produce cs (i.withAddrs a) = ((produce cs i).1, (produce cs i).2.1.withAddrs a, (produce cs i).2.2) := by
+  unfold produce
+  have hs : (i.withAddrs a).snum = i.snum := rfl
+  rw [hs]
+  cases dataGet cs i.snum with
+  | mk cs' ss =>
+    simp only
+    cases Stream.frameStreamEncode [] ss with
+    | error e => rfl
+    | ok o => cases o <;> rfl
+
+theorem streamStep_withAddrs (cs : List Chan) (i : Inst) (a : List Nat) :
+    streamStep cs (i.withAddrs a) = ((streamStep cs i).1, (streamStep cs i).2.1.withAddrs a, (streamStep cs i).2.2) := by
+  unfold streamStep
+  show (if i.streamThr ≠ .alive then _ else if (Gen.Dummy.streamWaitsStarted && !i.flag) = true then _ else _) = _
+  split
+  · rfl
+  · split
+    · rfl
+    · exact produce_withAddrs cs i a
+
+theorem stopStream_withAddrs (fuel : Nat) (cs : List Chan) (i : Inst) (a : List Nat) (h : a.length = i.addrs.length) :
+    stopStream fuel cs (i.withAddrs a) =
+      ((stopStream fuel cs i).1, (stopStream fuel cs i).2.1.withAddrs a, (stopStream fuel cs i).2.2) := by
+  induction fuel generalizing cs i with
+  | zero => rfl
+  | succ fuel ih =>
+    unfold stopStream
+    show (if i.streamThr ≠ .alive then _
+      else if (i.flag || !Gen.Dummy.streamWaitsStarted) = true then _
+      else if i.recvThr = .alive ∧ i.qwrite ≠ [] then _ else _) = _
+    split
+    · rfl
+    · split
+      · rw [produce_withAddrs]; rfl
+      · split
+        · rw [recvStep_withAddrs cs i a h]
+          simp only
+          rw [ih (recvStep cs i).1 (recvStep cs i).2.1 (by rw [(recvStep_keeps cs i).2]; exact h)]
+        · rfl
+
+theorem stop_withAddrs (cs : List Chan) (i : Inst) (a : List Nat) (h : a.length = i.addrs.length) :
+    stop cs (i.withAddrs a) = ((stop cs i).1, (stop cs i).2.1.withAddrs a, (stop cs i).2.2) := by
+  unfold stop
+  have hq : (i.withAddrs a).qwrite = i.qwrite := rfl
+  rw [hq, stopStream_withAddrs _ cs i a h]
+  simp only
+  rw [recvStep_withAddrs _ _ a (by rw [(stopStream_keeps _ cs i).2]; exact h)]
+  rfl
+
+theorem step_withAddrs (cs : List Chan) (i : Inst) (a : List Nat) (op : Op) (h : a.length = i.addrs.length) :
+    step cs (i.withAddrs a) op = ((step cs i op).1, (step cs i op).2.1.withAddrs a, (step cs i op).2.2) := by
+  cases op with
+  | write d => rfl
+  | recvStep => simp only [step]; rw [recvStep_withAddrs cs i a h]
+  | streamStep => simp only [step]; rw [streamStep_withAddrs cs i a]
+  | read =>
+    simp only [step]
+    show (match i.qread with | [] => _ | f :: r => _) = _
+    cases i.qread <;> rfl
+  | start => rfl
+  | stop => simp only [step]; rw [stop_withAddrs cs i a h]
+
+/-- **a history reads the address list of its instance only through its length**: channel objects and observations of
+    the same history on the same instance holding other addresses (as many) are the same -/
+theorem run_withAddrs (cs : List Chan) (i : Inst) (a : List Nat) (ops : List Op) (h : a.length = i.addrs.length) :
+    run cs (i.withAddrs a) ops = ((run cs i ops).1, (run cs i ops).2.1.withAddrs a, (run cs i ops).2.2) := by
+  induction ops generalizing cs i with
+  | nil => rfl
+  | cons op ops ih =>
+    simp only [run]
+    rw [step_withAddrs cs i a op h]
+    simp only
+    rw [ih (step cs i op).1 (step cs i op).2.1 (by rw [(step_keeps cs i op).2]; exact h)]
+
+/-- two instances that differ in their addresses only (same number of them) let a client observe the same -/
+theorem run_addrs_congr (cs : List Chan) (a b : List Nat) (flags rxp snum wpad : Nat) (ops : List Op) (h : a.length = b.length) :
+    (run cs (newInst a flags rxp snum wpad) ops).2.2 = (run cs (newInst b flags rxp snum wpad) ops).2.2 := by
+  have : newInst a flags rxp snum wpad = (newInst b flags rxp snum wpad).withAddrs a := rfl
+  rw [this, run_withAddrs cs _ a ops h]
+
+theorem freshAddrs_length (h : Heap) (n : Nat) : (freshAddrs h n).length = n := by simp [freshAddrs]
+
+/-- histories stay inside the worlds that can exist -/
+theorem Built.run {w : World} (hb : Built w) (h : List (Nat × Op)) : Built (w.run h).1 := by
+  induction h generalizing w with
+  | nil => exact hb
+  | cons p rest ih =>
+    obtain ⟨k, op⟩ := p
+    exact ih (hb.step k op)
+
+theorem Built.runOn {w : World} (hb : Built w) (k : Nat) (ops : List Op) : Built (w.runOn k ops).1 :=
+  hb.run _
+
 end Nxs.Dummy
